@@ -133,6 +133,41 @@ pub(crate) mod prelude {
                 self.current -= 1;
             }
         }
+
+        fn enter_n(&mut self, _depth: usize) -> Result<(), super::error::CustomError> {
+            #[cfg(not(feature = "unbounded"))]
+            {
+                if LIMIT <= self.current + _depth {
+                    return Err(super::error::CustomError::RecursionLimitExceeded);
+                }
+                self.current += _depth;
+            }
+            Ok(())
+        }
+
+        fn exit_n(&mut self, _depth: usize) {
+            #[cfg(not(feature = "unbounded"))]
+            {
+                self.current -= _depth;
+            }
+        }
+    }
+
+    /// Like [`check_recursion`] for the value of a dotted key: the `depth` tables the key's
+    /// leading segments create nest the value just like arrays and inline tables do
+    pub(crate) fn check_recursion_n<'b, O>(
+        depth: usize,
+        mut parser: impl ModalParser<Input<'b>, O, ContextError>,
+    ) -> impl ModalParser<Input<'b>, O, ContextError> {
+        move |input: &mut Input<'b>| {
+            input
+                .state
+                .enter_n(depth)
+                .map_err(|err| winnow::error::ErrMode::from_external_error(input, err).cut())?;
+            let result = parser.parse_next(input);
+            input.state.exit_n(depth);
+            result
+        }
     }
 
     pub(crate) fn check_recursion<'b, O>(
